@@ -27,8 +27,8 @@ PLANS = {
         (1, 1, 0, "m3", "m3", "all", "le1", "le1", "probe", "probe", "all", "all", 1),
         (1, 1, 1, "core", "core", "all", "all", "all", "all", "all", "all", "all", 1),
         (2, 1, 1, "m3", "m3", "all", "le1", "all", "probe", "probe", "all", "all", 4),
-        (1, 2, 1, "m3", "m3", "all", "all", "le1", "probe", "probe", "all", "all", 4),
-        (2, 2, 1, "m3", "m3", "all", "probe", "probe", "probe0", "probe0", "all", "all", 12),
+        (1, 2, 1, "m3", "m3", "all", "all", "probe", "probe", "probe0", "all", "all", 4),
+        (2, 2, 1, "m3", "m3", "all", "probe", "probe0", "probe0", "one", "all", "all", 12),
         (2, 2, 2, "m3", "m3", "all", "le1", "probe", "probe0", "probe0", "all", "all", 8),
         (2, 2, 0, "m2", "m2", "two", "probe0", "probe0", "probe0", "probe0", "some", "all", 4),
         (3, 1, 1, "m2", "m2", "two", "probe", "probe", "probe0", "probe0", "some", "all", 4),
@@ -37,7 +37,7 @@ PLANS = {
         (3, 3, 2, "m2", "m1", "two", "probe0", "probe0", "one", "one", "some", "some", 16),
         (3, 3, 3, "m2", "m2", "two", "probe0", "probe0", "probe0", "one", "some", "some", 16),
         # 4-index first operand (2 free + 2 contracted legs): fused path with holes
-        (4, 2, 2, "m1", "m1", "two", "probe", "probe0", "probe0", "one", "all", "some", 8),
+        (4, 2, 2, "m1", "m1", "one", "probe0", "probe0", "probe0", "one", "some", "some", 8),
     ],
 }
 PLANS["thorough"] = PLANS["quick"] + [
@@ -141,14 +141,22 @@ def pair_failures(a_d, b_d, axes_a, axes_b, st=None):
     return fails, (a, b, nontrivial)
 
 
-def label_variants(a_odd, b_odd):
+def label_variants(a_odd, b_odd, composite=False):
     if a_odd and b_odd:
-        return [(1, 2), (2, 1)]
-    if a_odd:
-        return [(1, None)]
-    if b_odd:
-        return [(None, 2)]
-    return [(None, None)]
+        out = [(1, 2), (2, 1)]
+    elif a_odd:
+        out = [(1, None)]
+    elif b_odd:
+        out = [(None, 2)]
+    else:
+        out = [(None, None)]
+    if composite:
+        # operands that are themselves products of odd tensors: several labels (even operand: 2, odd operand: 3)
+        L = lambda *ls: ("L", tuple((l, False) for l in ls))
+        la = L(1, 4, 6) if a_odd else L(1, 4)
+        lb = L(2, 3, 5) if b_odd else L(2, 3)
+        out = out + [(out[0][0], lb), (la, out[0][1]), (la, lb), (L(5, 7) if not a_odd else L(5, 7, 8), L(2, 6) if not b_odd else L(2, 3, 6))]
+    return out
 
 
 def run_group(ctx, group):
@@ -172,7 +180,7 @@ def run_pairs(ctx, sym, pi, k):
                                            orders=("sorted", "reversed"), perms=perms, phases=ph_b, ferm=True, label="B",
                                            fill=("perm", 1000, ctx.seed)):
                 b_odd = b_d["oddpos"] is not None
-                for la, lb in label_variants(a_odd, b_odd):
+                for la, lb in label_variants(a_odd, b_odd, composite=(n_a + n_b <= 2)):
                     a_use = dict(a_d, oddpos=la)
                     b_use = dict(b_d, oddpos=lb)
                     if (st.evaluations + ctx.seed) % 7 == 0:
